@@ -3,4 +3,4 @@
 set -e
 cd "$(dirname "$0")"
 export CARGO_NET_OFFLINE=true
-./check --build dbg,generic,rel,asan,miri,tsan,nd
+./check --build dbg,generic,rel,native,asan,miri,tsan,nd
